@@ -351,6 +351,14 @@ func NewManager(
 		return nil, err
 	}
 
+	// No block exists below the initial height: a chain that starts above height 1 has nothing to
+	// submit for the heights before it. Without this the pending lists would start at height 1,
+	// fail to load blocks that never existed, and never submit anything.
+	if genesis.InitialHeight > 1 {
+		pendingHeaders.base.lastHeight.CompareAndSwap(0, genesis.InitialHeight-1)
+		pendingData.base.lastHeight.CompareAndSwap(0, genesis.InitialHeight-1)
+	}
+
 	// If lastBatchHash is not set, retrieve the last batch hash from store
 	lastBatchDataBytes, err := store.GetMetadata(ctx, storepkg.LastBatchDataKey)
 	if err != nil && s.LastBlockHeight > 0 {
